@@ -899,6 +899,720 @@ fn triangle_checks(args: &Args, st: &mut Stats) {
     }
 }
 
+// =====================================================================================================================
+// cubic x cubic beyond generic position: straight cubics (line x curve, line x line), reversed / shared-end-point /
+// looping pairs, point curves at an extremum, and all of it moved to large coordinates (f64 and f32).
+//
+// Soundness (the property: "every parameter returned by a ... curve-curve intersection query denotes a point that lies
+// on both primitives (within rounding)"): for every returned (t1, t2), both are in [0, 1] and the two curves, evaluated
+// HERE in f64 by de Casteljau on the control points that were actually passed (after rounding to f32 in the f32 runs),
+// are within `cc_bound` of each other.  The bound follows the precision the implementation documents for itself: the
+// parameter intervals are refined to 1e-9 (f64) / 5e-6 (f32) and candidate points are accepted at a squared distance of
+// EPSILON (1e-8 / 1e-4), growing with the size of the coordinates (`epsilon_for_point`).
+// Completeness is only demanded where the property demands it: a (straight) line crossing a curve or another line
+// transversally at well separated interior points whose position is known by construction.
+// =====================================================================================================================
+type C64 = CubicBezierSegment<f64>;
+
+/// the coordinate scales: base coordinates are about +-10, so the magnitudes are ~5, 50, 500, 5e3, 5e4 (all f64 / f32
+/// arms of `epsilon_for_point` up to there), 5e6 (last f32 arm, second f64 arm), 5e8, 5e10 (remaining f64 arms)
+const CC_LEVELS: [f64; 8] = [0.5, 5.0, 50.0, 500.0, 5000.0, 5e5, 5e7, 5e9];
+
+/// allowed distance between the two sampled points for coordinates of magnitude m.
+/// * straight x curved and straight x straight cubics are solved in closed form (line equation + cubic roots): only
+///   rounding, amplified by the conditioning of a transversal crossing, separates the two points -
+///   1e-8 max(1, m) in f64, 5e-5 max(1, m) in f32 (measured on three thorough runs: at most 7e-11 m and 9e-6 m).
+/// * everything else goes through fat-line clipping, which documents its own precision: parameter intervals are
+///   refined to 1e-9 (f64) / 5e-6 (f32), i.e. a distance of that times the speed of the curves (a few times m), and a
+///   point is accepted on a curve at a SQUARED distance below `epsilon_for_point`: 1e-8 in f64 (a distance of 1e-4; the
+///   larger entries of that table are below the first term), and in f32 0.001 / 0.01 / 0.1 / 0.25 / 0.5 / 1 for
+///   coordinates below 10 / 100 / 1000 / 1e4 / 1e6 / beyond (distances 0.032, 0.1, 0.32, 0.5, 0.71, 1).  The bound is
+///   the larger of the two (10 % above the acceptance distance): f64 max(1.1e-4, 1e-6 m), f32 max(acceptance, 1e-4 m)
+///   (1e-4 m is the 1e-3 max(1, m / 10) used for the generic cubic x cubic check above; measured: f64 at most 3e-7 m,
+///   f32 at most 1.7e-5 m beyond the acceptance distances, which are reached).
+fn cc_bound(m: f64, single: bool, closed_form: bool) -> f64 {
+    match (single, closed_form) {
+        (false, true) => 1e-8 * m.max(1.0),
+        (true, true) => 5e-5 * m.max(1.0),
+        (false, false) => (1e-6 * m).max(1.1e-4),
+        (true, false) => {
+            let accept2: f64 = if m < 10.0 {
+                0.001
+            } else if m < 100.0 {
+                0.01
+            } else if m < 1000.0 {
+                0.1
+            } else if m < 10000.0 {
+                0.25
+            } else if m < 1e6 {
+                0.5
+            } else {
+                1.0
+            };
+            (1e-4 * m).max(1.1 * accept2.sqrt())
+        }
+    }
+}
+
+fn lerp_p(a: P, b: P, t: f64) -> P {
+    point(a.x + (b.x - a.x) * t, a.y + (b.y - a.y) * t)
+}
+
+/// de Casteljau evaluation (independent of CubicBezierSegment::sample)
+fn bez(c: &C64, t: f64) -> P {
+    let (p01, p12, p23) = (lerp_p(c.from, c.ctrl1, t), lerp_p(c.ctrl1, c.ctrl2, t), lerp_p(c.ctrl2, c.to, t));
+    lerp_p(lerp_p(p01, p12, t), lerp_p(p12, p23, t), t)
+}
+
+/// derivative: three times the quadratic on the control polygon's edges
+fn bez_d(c: &C64, t: f64) -> lyon_geom::Vector<f64> {
+    let (d0, d1, d2) = (c.ctrl1 - c.from, c.ctrl2 - c.ctrl1, c.to - c.ctrl2);
+    let s = 1.0 - t;
+    (d0 * (s * s) + d1 * (2.0 * s * t) + d2 * (t * t)) * 3.0
+}
+
+fn cmag(cs: &[&C64]) -> f64 {
+    let mut m = 0.0f64;
+    for c in cs {
+        for p in [c.from, c.ctrl1, c.ctrl2, c.to] {
+            m = m.max(p.x.abs()).max(p.y.abs());
+        }
+    }
+    m
+}
+
+fn cmap(c: &C64, off: (f64, f64), scale: f64) -> C64 {
+    let f = |p: P| point((p.x + off.0) * scale, (p.y + off.1) * scale);
+    CubicBezierSegment { from: f(c.from), ctrl1: f(c.ctrl1), ctrl2: f(c.ctrl2), to: f(c.to) }
+}
+
+fn creverse(c: &C64) -> C64 {
+    CubicBezierSegment { from: c.to, ctrl1: c.ctrl2, ctrl2: c.ctrl1, to: c.from }
+}
+
+/// a.cubic_intersections_t(b) in f64, or in f32 on the rounded curves; returns the curves that were actually queried
+/// (exactly, as f64) and the pairs (None: the call panicked)
+fn cc_query(a: &C64, b: &C64, single: bool) -> (C64, C64, Option<Vec<(f64, f64)>>) {
+    if single {
+        let (x, y) = (a.to_f32(), b.to_f32());
+        let v = catch(|| x.cubic_intersections_t(&y).iter().map(|(t, u)| (*t as f64, *u as f64)).collect::<Vec<_>>());
+        (x.to_f64(), y.to_f64(), v)
+    } else {
+        let v = catch(|| a.cubic_intersections_t(b).to_vec());
+        (*a, *b, v)
+    }
+}
+
+fn counter_max(st: &mut Stats, key: &str, v: u64) {
+    let e = st.counters.entry(key.to_string()).or_insert(0);
+    if v > *e {
+        *e = v;
+    }
+}
+
+fn tag(single: bool) -> &'static str {
+    if single {
+        "f32"
+    } else {
+        "f64"
+    }
+}
+
+/// query + soundness of every returned pair; returns the queried curves and the pairs (empty after a panic)
+fn cc_run(st: &mut Stats, fam: &str, single: bool, a: &C64, b: &C64) -> (C64, C64, Vec<(f64, f64)>) {
+    let (qa, qb, v) = cc_query(a, b, single);
+    st.inc("evaluations");
+    st.inc(&format!("cc_{}_{}_queries", fam, tag(single)));
+    let label = format!("{} {:?} x {:?}", tag(single), qa, qb);
+    let v = match v {
+        Some(v) => v,
+        None => {
+            st.fail(jobj(&[("what", jstr(&format!("cubic_intersections_t panicked ({})", fam))), ("input", jstr(&label))]));
+            return (qa, qb, vec![]);
+        }
+    };
+    let bound = cc_bound(cmag(&[&qa, &qb]), single, fam.starts_with("line_"));
+    let mut worst = 0.0f64;
+    let mut reported = false;
+    for (t, u) in v.iter() {
+        let d = (bez(&qa, *t) - bez(&qb, *u)).length();
+        let ok = (0.0..=1.0).contains(t) && (0.0..=1.0).contains(u) && d <= bound;
+        if d.is_finite() {
+            worst = worst.max(d / bound);
+        }
+        if !ok && !reported {
+            reported = true;
+            st.fail(jobj(&[
+                ("what", jstr(&format!("cubic x cubic ({}, {}): returned parameters do not denote a common point", fam, tag(single)))),
+                ("input", jstr(&format!("{} -> t1={} t2={} distance {} (allowed {})", label, t, u, d, bound))),
+            ]));
+        }
+    }
+    if !v.is_empty() {
+        st.inc(&format!("cc_{}_{}_queries_with_pairs", fam, tag(single)));
+    }
+    counter_max(st, &format!("cc_{}_{}_worst_distance_ppm_of_allowed", fam, tag(single)), (worst * 1e6) as u64);
+    (qa, qb, v)
+}
+
+/// picks a precision and a coordinate level
+fn cc_level(r: &mut Rng, max_f64_levels: u64) -> (bool, f64, (f64, f64)) {
+    let single = r.chance(1, 3);
+    let lv = if single { r.below(6.min(max_f64_levels)) } else { r.below(max_f64_levels) };
+    (single, CC_LEVELS[lv as usize], (r.range(-5, 5) as f64, r.range(-5, 5) as f64))
+}
+
+/// family 1: a straight cubic (control points on its baseline: at 1/3 and 2/3, unevenly spaced, overshooting the
+/// end points, or equal to them) against a curved cubic that it crosses at two known parameters ta, tb, in both
+/// argument orders.  Even cases: the curve is random and the baseline goes through c(ta), c(tb), extended beyond them
+/// (f64, magnitudes up to 5e4: beyond that the rounding of the control points takes them off the baseline by more than
+/// the implementation's flatness threshold).  Odd cases: the straight cubic is on an integer lattice (exactly collinear
+/// at every scale, in f32 as well) and the curve is solved to pass through two points of it at ta, tb.
+/// Completeness: where both crossings are transversal (sine of the angle >= 0.2, speed not small) and the third root of
+/// the line on the curve is not within 0.02 of them, each must be reported at a curve parameter within 1e-6 (f64) /
+/// 1e-4 (f32).  In f32 a miss with a tiny cubic coefficient of the projected polynomial is the known K16.
+fn straight_x_curve_checks(args: &Args, st: &mut Stats) {
+    let mut rng = Rng::new(args.seed ^ 0x12c2);
+    let n = if args.thorough() { 15000 } else { 2000 };
+    for it in 0..n {
+        let r = &mut rng;
+        let lattice = it % 2 == 1;
+        let (single, scale, off) = if lattice { cc_level(r, 8) } else { (false, CC_LEVELS[r.below(5) as usize], (r.range(-5, 5) as f64, r.range(-5, 5) as f64)) };
+        let (ta, tb) = (0.15 + 0.25 * r.unit_f64(), 0.6 + 0.25 * r.unit_f64());
+        let g = |r: &mut Rng, w: f64| point((r.unit_f64() - 0.5) * w, (r.unit_f64() - 0.5) * w);
+        let (curve, straight, kind): (C64, C64, &str) = if !lattice {
+            let c = cmap(&CubicBezierSegment { from: g(r, 20.0), ctrl1: g(r, 20.0), ctrl2: g(r, 20.0), to: g(r, 20.0) }, off, scale);
+            let (pa, pb) = (bez(&c, ta), bez(&c, tb));
+            if (pb - pa).length() < 0.5 * scale {
+                continue;
+            }
+            let (e1, e2) = (0.1 + 0.4 * r.unit_f64(), 0.1 + 0.4 * r.unit_f64());
+            let (from, to) = (pa - (pb - pa) * e1, pb + (pb - pa) * e2);
+            let (s1, s2, kind) = match r.below(4) {
+                0 => (1.0 / 3.0, 2.0 / 3.0, "thirds"),
+                1 => (r.unit_f64(), r.unit_f64(), "uneven"),
+                2 => (-1.0 + 3.0 * r.unit_f64(), -1.0 + 3.0 * r.unit_f64(), "overshooting"),
+                _ => (0.0, 1.0, "at the end points"),
+            };
+            let s = CubicBezierSegment { from, ctrl1: from + (to - from) * s1, ctrl2: from + (to - from) * s2, to };
+            (c, if r.chance(1, 2) { creverse(&s) } else { s }, kind)
+        } else {
+            let a = (r.range(-4, 4) as f64, r.range(-4, 4) as f64);
+            let u = (r.range(-2, 2) as f64, r.range(-2, 2) as f64);
+            if u == (0.0, 0.0) {
+                continue;
+            }
+            let (k1, k2, kind) = match r.below(4) {
+                0 => (2, 4, "thirds"),
+                1 => (r.range(0, 6), r.range(0, 6), "uneven"),
+                2 => (r.range(-3, 9), r.range(-3, 9), "overshooting"),
+                _ => (0, 6, "at the end points"),
+            };
+            let on = |k: f64| point(a.0 + k * u.0, a.1 + k * u.1);
+            let s = CubicBezierSegment { from: on(0.0), ctrl1: on(k1 as f64), ctrl2: on(k2 as f64), to: on(6.0) };
+            // the curve goes through two points of the baseline at ta and tb
+            let (mut sa, mut sb) = (0.1 + 0.35 * r.unit_f64(), 0.55 + 0.35 * r.unit_f64());
+            if r.chance(1, 2) {
+                std::mem::swap(&mut sa, &mut sb);
+            }
+            let (pa, pb) = (on(6.0 * sa), on(6.0 * sb));
+            let (f, t) = (g(r, 16.0), g(r, 16.0));
+            // 3(1-t)^2 t C1 + 3(1-t) t^2 C2 = P - (1-t)^3 F - t^3 T at t = ta, tb
+            let w = |t: f64| (3.0 * (1.0 - t) * (1.0 - t) * t, 3.0 * (1.0 - t) * t * t);
+            let rhs = |p: P, tt: f64| p.to_vector() - f.to_vector() * ((1.0 - tt) * (1.0 - tt) * (1.0 - tt)) - t.to_vector() * (tt * tt * tt);
+            let ((m11, m12), (m21, m22)) = (w(ta), w(tb));
+            let (ra, rb) = (rhs(pa, ta), rhs(pb, tb));
+            let det = m11 * m22 - m12 * m21;
+            let c1 = (ra * m22 - rb * m12) / det;
+            let c2 = (rb * m11 - ra * m21) / det;
+            let c = CubicBezierSegment { from: f, ctrl1: c1.to_point(), ctrl2: c2.to_point(), to: t };
+            (cmap(&c, off, scale), cmap(&if r.chance(1, 2) { creverse(&s) } else { s }, off, scale), kind)
+        };
+        st.inc("cc_line_curve_cases");
+        st.inc(&format!("cc_line_curve_cases_{}", kind.replace(' ', "_")));
+        st.note_case(&format!("{}{:?}{:?}", tag(single), straight, curve), true);
+        for straight_first in [true, false] {
+            let (qa, qb, v) = if straight_first { cc_run(st, "line_curve", single, &straight, &curve) } else { cc_run(st, "line_curve", single, &curve, &straight) };
+            let (qs, qc) = if straight_first { (qa, qb) } else { (qb, qa) };
+            // the crossings, on the curves as queried (f32: the rounding of the control points moves them by ~1e-7)
+            let dir = qs.to - qs.from;
+            let size = [qc.ctrl1, qc.ctrl2, qc.to].iter().fold(0.0f64, |m, p| m.max((*p - qc.from).length()));
+            // third root of the line on the curve from the sum of the roots of n . (B(t) - pa)
+            let nrm = lyon_geom::vector(-dir.y, dir.x);
+            let a3 = nrm.dot((qc.to - qc.from) + (qc.ctrl1 - qc.ctrl2) * 3.0);
+            let a2 = nrm.dot((qc.from.to_vector() - qc.ctrl1.to_vector() * 2.0 + qc.ctrl2.to_vector()) * 3.0);
+            let t3 = if a3 != 0.0 { -a2 / a3 - ta - tb } else { f64::INFINITY };
+            // K16 (see curve_checks_f32): in f32 the root finder behind the line x cubic query loses real roots when the
+            // cubic coefficient of the projected polynomial is tiny against the others - same criterion as there
+            let a1 = nrm.dot((qc.ctrl1 - qc.from) * 3.0);
+            let tiny_leading = single && a3.abs() <= 2e-3 * a2.abs().max(a1.abs());
+            let demand = |tw: f64| {
+                let d = bez_d(&qc, tw);
+                d.length() > 0.05 * size && d.cross(dir).abs() > 0.2 * d.length() * dir.length() && !((t3 - tw).abs() < 0.02)
+            };
+            if !(demand(ta) && demand(tb)) {
+                continue;
+            }
+            st.inc(&format!("cc_line_curve_{}_transversal_pairs_demanded", tag(single)));
+            // measured: f64 below 1e-9, f32 at most 1e-5
+            let tol = if single { 1e-4 } else { 1e-6 };
+            for want in [ta, tb] {
+                let best = v.iter().map(|(t1, t2)| ((if straight_first { *t2 } else { *t1 }) - want).abs()).fold(f64::INFINITY, f64::min);
+                if best < tol {
+                    counter_max(st, &format!("cc_line_curve_{}_worst_parameter_error_e9", tag(single)), (best.min(1.0) * 1e9) as u64);
+                }
+                if !(best < tol) {
+                    let mut f = vec![
+                        ("what", jstr(&format!("straight cubic x curved cubic ({}): transversal crossing not reported", tag(single)))),
+                        ("input", jstr(&format!("{} {} control points; {:?} x {:?} ({} first): want curve t={} got {:?}", tag(single), kind, qs, qc, if straight_first { "straight" } else { "curve" }, want, v))),
+                    ];
+                    if tiny_leading {
+                        f.push(("class", jstr("K16")));
+                    }
+                    st.fail(jobj(&f));
+                    break;
+                }
+            }
+        }
+    }
+}
+
+/// family 2: two straight cubics on an integer lattice (end points a, a + 6u and c, c + 6w; control points a + k u,
+/// k = 2, 4 / uneven in 0..6 / overshooting in -3..9 / 0, 6), scaled: general position, a forced interior crossing at
+/// a lattice point, parallel, collinear and overlapping, touching at an end point.  Soundness always; completeness
+/// where the BASELINES cross at a single point strictly inside both (decided in integers): some returned pair must
+/// locate that point on both.
+fn straight_x_straight_checks(args: &Args, st: &mut Stats) {
+    let mut rng = Rng::new(args.seed ^ 0x12c3);
+    let n = if args.thorough() { 15000 } else { 2000 };
+    for it in 0..n {
+        let r = &mut rng;
+        let (single, scale, off) = cc_level(r, 8);
+        let nz = |r: &mut Rng| loop {
+            let u = (r.range(-2, 2), r.range(-2, 2));
+            if u != (0, 0) {
+                return u;
+            }
+        };
+        let a = (r.range(-4, 4), r.range(-4, 4));
+        let u = nz(r);
+        let (c, w, kind): ((i64, i64), (i64, i64), &str) = match it % 5 {
+            0 => ((r.range(-6, 6), r.range(-6, 6)), nz(r), "general"),
+            1 => {
+                let w = nz(r);
+                if u.0 * w.1 - u.1 * w.0 == 0 {
+                    continue;
+                }
+                let (i, j) = (r.range(1, 5), r.range(1, 5));
+                ((a.0 + i * u.0 - j * w.0, a.1 + i * u.1 - j * w.1), w, "crossing")
+            }
+            2 => {
+                let sg = if r.chance(1, 2) { 1 } else { -1 };
+                ((a.0 + r.range(-3, 3), a.1 + r.range(-3, 3)), (sg * u.0, sg * u.1), "parallel")
+            }
+            3 => {
+                let sg = if r.chance(1, 2) { 1 } else { -1 };
+                let k = r.range(-5, 5);
+                ((a.0 + k * u.0, a.1 + k * u.1), (sg * u.0, sg * u.1), "collinear")
+            }
+            _ => {
+                let i = r.range(0, 6);
+                ((a.0 + i * u.0, a.1 + i * u.1), nz(r), "touching")
+            }
+        };
+        let (b, d) = ((a.0 + 6 * u.0, a.1 + 6 * u.1), (c.0 + 6 * w.0, c.1 + 6 * w.1));
+        let ks = |r: &mut Rng| match r.below(4) {
+            0 => (2, 4),
+            1 => (r.range(0, 6), r.range(0, 6)),
+            2 => (r.range(-3, 9), r.range(-3, 9)),
+            _ => (0, 6),
+        };
+        let mk = |p: (i64, i64), v: (i64, i64), k: (i64, i64)| {
+            let on = |k: i64| point((p.0 + k * v.0) as f64, (p.1 + k * v.1) as f64);
+            CubicBezierSegment { from: on(0), ctrl1: on(k.0), ctrl2: on(k.1), to: on(6) }
+        };
+        let (ka, kc) = (ks(r), ks(r));
+        let (mut s1, mut s2) = (mk(a, u, ka), mk(c, w, kc));
+        if r.chance(1, 2) {
+            s1 = creverse(&s1);
+        }
+        if r.chance(1, 2) {
+            s2 = creverse(&s2);
+        }
+        let (s1, s2) = (cmap(&s1, off, scale), cmap(&s2, off, scale));
+        st.inc("cc_line_line_cases");
+        st.inc(&format!("cc_line_line_cases_{}", kind));
+        st.note_case(&format!("{}{:?}{:?}", tag(single), s1, s2), true);
+        // exact position of the crossing of the baselines
+        let cr = |p: (i64, i64), q: (i64, i64)| p.0 * q.1 - p.1 * q.0;
+        let (ab, cd, ac) = ((b.0 - a.0, b.1 - a.1), (d.0 - c.0, d.1 - c.1), (c.0 - a.0, c.1 - a.1));
+        let den = cr(ab, cd);
+        let (sn, un) = (cr(ac, cd), cr(ac, ab));
+        let inside = |num: i64| den != 0 && num * den.signum() > 0 && num * den.signum() < den.abs();
+        let crossing = inside(sn) && inside(un);
+        let x = if den != 0 {
+            let s = sn as f64 / den as f64;
+            point((a.0 as f64 + s * ab.0 as f64 + off.0) * scale, (a.1 as f64 + s * ab.1 as f64 + off.1) * scale)
+        } else {
+            point(0.0, 0.0)
+        };
+        if crossing {
+            st.inc(&format!("cc_line_line_{}_interior_crossings_demanded", tag(single)));
+        }
+        for swap in [false, true] {
+            let (qa, qb, v) = if swap { cc_run(st, "line_line", single, &s2, &s1) } else { cc_run(st, "line_line", single, &s1, &s2) };
+            if crossing {
+                let bound = cc_bound(cmag(&[&qa, &qb]), single, true);
+                if !v.iter().any(|(t1, t2)| (bez(&qa, *t1) - x).length() <= bound && (bez(&qb, *t2) - x).length() <= bound) {
+                    st.fail(jobj(&[
+                        ("what", jstr(&format!("straight cubic x straight cubic ({}): crossing strictly inside both baselines not reported", tag(single)))),
+                        ("input", jstr(&format!("{} {} {:?} x {:?}: crossing at {:?}, got {:?}", tag(single), kind, qa, qb, x, v))),
+                    ]));
+                }
+            }
+        }
+    }
+}
+
+/// family 3: pairs that are not in general position - the same cubic twice, a cubic and its reverse, the reverse with
+/// one control point moved, two cubics sharing an end point (chained, fanning out of a common start, meeting in a
+/// common end, closing a loop together), a cubic against a closed loop (from == to), and two random curved cubics of
+/// which the second is translated to cross the first at chosen parameters - at all coordinate levels.  Whatever is
+/// returned must be sound and nothing may panic.
+fn special_pair_checks(args: &Args, st: &mut Stats) {
+    let mut rng = Rng::new(args.seed ^ 0x12c4);
+    let n = if args.thorough() { 15000 } else { 2000 };
+    for it in 0..n {
+        let r = &mut rng;
+        let (single, scale, off) = cc_level(r, 8);
+        let g = |r: &mut Rng| if r.chance(1, 4) { point(r.range(-10, 10) as f64, r.range(-10, 10) as f64) } else { point((r.unit_f64() - 0.5) * 20.0, (r.unit_f64() - 0.5) * 20.0) };
+        let c1 = CubicBezierSegment { from: g(r), ctrl1: g(r), ctrl2: g(r), to: g(r) };
+        let mut c2 = CubicBezierSegment { from: g(r), ctrl1: g(r), ctrl2: g(r), to: g(r) };
+        let kind = match it % 9 {
+            0 => {
+                c2 = c1;
+                "identical"
+            }
+            1 => {
+                c2 = creverse(&c1);
+                "reversed"
+            }
+            2 => {
+                c2 = creverse(&c1);
+                if r.chance(1, 2) {
+                    c2.ctrl1 = g(r);
+                } else {
+                    c2.ctrl2 = g(r);
+                }
+                "reversed_one_control_moved"
+            }
+            3 => {
+                c2.from = c1.to;
+                "chained"
+            }
+            4 => {
+                c2.from = c1.from;
+                "common_start"
+            }
+            5 => {
+                c2.to = c1.to;
+                "common_end"
+            }
+            6 => {
+                c2.from = c1.to;
+                c2.to = c1.from;
+                "closing"
+            }
+            7 => {
+                c2.to = c2.from;
+                "closed_loop"
+            }
+            _ => {
+                let (ta, tb) = (0.1 + 0.8 * r.unit_f64(), 0.1 + 0.8 * r.unit_f64());
+                let sh = bez(&c1, ta) - bez(&c2, tb);
+                c2 = CubicBezierSegment { from: c2.from + sh, ctrl1: c2.ctrl1 + sh, ctrl2: c2.ctrl2 + sh, to: c2.to + sh };
+                "translated_to_cross"
+            }
+        };
+        let (c1, c2) = (cmap(&c1, off, scale), cmap(&c2, off, scale));
+        st.inc("cc_special_cases");
+        st.inc(&format!("cc_special_cases_{}", kind));
+        st.note_case(&format!("{}{:?}{:?}", tag(single), c1, c2), true);
+        let fam = format!("special_{}", kind);
+        let (_, _, v1) = cc_run(st, &fam, single, &c1, &c2);
+        let (_, _, v2) = cc_run(st, &fam, single, &c2, &c1);
+        if kind == "translated_to_cross" && (!v1.is_empty() || !v2.is_empty()) {
+            st.inc(&format!("cc_special_translated_to_cross_{}_reported", tag(single)));
+        }
+    }
+}
+
+/// a cubic collapsed to a point placed at (or up to the acceptance distance beyond) an extremum of the other curve,
+/// where the x- and the y-parameter solvers both come back empty: the tip of a straight axis-parallel cubic whose
+/// control points overshoot its end points, and a cusp that is a corner of the curve's bounding box, approached
+/// diagonally.  The implementation accepts the point at a squared distance below EPSILON, i.e. a distance of 1e-4 in
+/// f64 and 1e-2 in f32: the bound here is that distance (plus rounding), or `cc_bound` where that is larger.
+fn point_at_extremum_checks(args: &Args, st: &mut Stats) {
+    let mut rng = Rng::new(args.seed ^ 0x12c5);
+    let n = if args.thorough() { 15000 } else { 2000 };
+    for it in 0..n {
+        let r = &mut rng;
+        let single = r.chance(1, 3);
+        let accept = if single { 1e-2 } else { 1e-4 };
+        // (base curve, parameter of the extremum, outward direction)
+        let (c, tx, out, kind): (C64, f64, lyon_geom::Vector<f64>, &str) = if it % 2 == 0 {
+            // straight, axis-parallel, position along the axis: 0, k1, k2, 6 (times a step), overshooting beyond 6 or below 0
+            let (k1, k2) = (r.range(-6, 14) as f64, r.range(-6, 14) as f64);
+            let step = *r.pick(&[0.5f64, 1.0, 1.5, 2.0]);
+            let o = (r.range(-4, 4) as f64, r.range(-4, 4) as f64);
+            let horizontal = r.chance(1, 2);
+            let on = |k: f64| if horizontal { point(o.0 + k * step, o.1) } else { point(o.0, o.1 + k * step) };
+            let c = CubicBezierSegment { from: on(0.0), ctrl1: on(k1), ctrl2: on(k2), to: on(6.0) };
+            // position phi(t) = 3 (1-t)^2 t k1 + 3 (1-t) t^2 k2 + 6 t^3: extrema by a fine scan + bisection on phi'
+            let dphi = |t: f64| 3.0 * ((1.0 - t) * (1.0 - t) * k1 + 2.0 * (1.0 - t) * t * (k2 - k1) + t * t * (6.0 - k2));
+            let phi = |t: f64| 3.0 * (1.0 - t) * (1.0 - t) * t * k1 + 3.0 * (1.0 - t) * t * t * k2 + 6.0 * t * t * t;
+            let mut ext: Vec<f64> = vec![];
+            let m = 400;
+            for i in 0..m {
+                let (mut lo, mut hi) = (i as f64 / m as f64, (i + 1) as f64 / m as f64);
+                if dphi(lo) * dphi(hi) < 0.0 {
+                    for _ in 0..60 {
+                        let mid = 0.5 * (lo + hi);
+                        if dphi(lo) * dphi(mid) <= 0.0 {
+                            hi = mid;
+                        } else {
+                            lo = mid;
+                        }
+                    }
+                    ext.push(0.5 * (lo + hi));
+                }
+            }
+            // only a tip beyond the end points is outside the x / y range the solvers accept
+            ext.retain(|t| phi(*t) > 6.0 + 0.05 || phi(*t) < -0.05);
+            if ext.is_empty() {
+                continue;
+            }
+            let t = *r.pick(&ext);
+            let sgn = if phi(t) > 6.0 { 1.0 } else { -1.0 };
+            (c, t, if horizontal { lyon_geom::vector(sgn, 0.0) } else { lyon_geom::vector(0.0, sgn) }, "tip_of_overshooting_straight_cubic")
+        } else {
+            // x'(t) = al (t - ts)(t - p), y'(t) = be (t - ts)(t - q) with p, q outside [0, 1]: a cusp at ts where both
+            // coordinates are extremal
+            let ts = 0.2 + 0.6 * r.unit_f64();
+            let outside = |r: &mut Rng| if r.chance(1, 2) { 1.3 + 2.0 * r.unit_f64() } else { -0.3 - 2.0 * r.unit_f64() };
+            let (p, q) = (outside(r), outside(r));
+            let (al, be) = ((2.0 + 6.0 * r.unit_f64()) * if r.chance(1, 2) { 1.0 } else { -1.0 }, (2.0 + 6.0 * r.unit_f64()) * if r.chance(1, 2) { 1.0 } else { -1.0 });
+            // Bernstein coefficients of a t^2 + b t + c: c, c + b / 2, c + b + a; the curve's edges are a third of them
+            let bern = |a: f64, z: f64| {
+                let (b, c) = (-a * (ts + z), a * ts * z);
+                (c / 3.0, (c + b / 2.0) / 3.0, (c + b + a) / 3.0)
+            };
+            let ((x0, x1, x2), (y0, y1, y2)) = (bern(al, p), bern(be, q));
+            let f = point(r.range(-3, 3) as f64, r.range(-3, 3) as f64);
+            let c1 = point(f.x + x0, f.y + y0);
+            let c2 = point(c1.x + x1, c1.y + y1);
+            let to = point(c2.x + x2, c2.y + y2);
+            let c = CubicBezierSegment { from: f, ctrl1: c1, ctrl2: c2, to };
+            // just before ts, (t - ts)(t - p) has the sign of -(ts - p): x' > 0 there means a maximum, outward is +x
+            let sx = if al * (ts - p) > 0.0 { -1.0 } else { 1.0 };
+            let sy = if be * (ts - q) > 0.0 { -1.0 } else { 1.0 };
+            (c, ts, lyon_geom::vector(sx, sy) * std::f64::consts::FRAC_1_SQRT_2, "cusp_in_a_corner_of_the_bounding_box")
+        };
+        // the whole curve is behind the extremum (sanity of the construction)
+        if (0..=20).any(|i| (bez(&c, i as f64 / 20.0) - bez(&c, tx)).dot(out) > 1e-9) {
+            st.inc("cc_point_at_extremum_construction_rejected");
+            continue;
+        }
+        // moderate scales only: the acceptance distance does not grow with the coordinates
+        let scale = *r.pick(&[1.0f64, 1.0, 4.0, 0.5]);
+        let c = cmap(&c, (0.0, 0.0), scale);
+        let tip = bez(&c, tx);
+        let nudge = match r.below(4) {
+            0 => 0.0,
+            1 | 2 => accept * 0.9 * r.unit_f64(),
+            _ => accept * (1.1 + r.unit_f64()),
+        };
+        let pt = tip + out * nudge;
+        let dot = CubicBezierSegment { from: pt, ctrl1: pt, ctrl2: pt, to: pt };
+        st.inc("cc_point_at_extremum_cases");
+        st.inc(&format!("cc_point_at_extremum_cases_{}", kind));
+        st.note_case(&format!("{}{:?}{:?}", tag(single), c, pt), true);
+        for point_first in [true, false] {
+            let (qa, qb, v) = if point_first { cc_query(&dot, &c, single) } else { cc_query(&c, &dot, single) };
+            st.inc("evaluations");
+            let label = format!("{} {} {:?} x {:?} (point {} beyond the extremum at t={})", tag(single), kind, qa, qb, nudge, tx);
+            match v {
+                None => st.fail(jobj(&[("what", jstr("cubic_intersections_t panicked (point at an extremum)")), ("input", jstr(&label))])),
+                Some(v) => {
+                    if !v.is_empty() {
+                        st.inc(&format!("cc_point_at_extremum_{}_reported", tag(single)));
+                    }
+                    let bound = cc_bound(cmag(&[&qa, &qb]), single, false).max(accept * 1.05);
+                    for (t, u) in v.iter() {
+                        let dd = (bez(&qa, *t) - bez(&qb, *u)).length();
+                        if !((0.0..=1.0).contains(t) && (0.0..=1.0).contains(u) && dd <= bound) {
+                            st.fail(jobj(&[
+                                ("what", jstr(&format!("cubic x point cubic at an extremum ({}): returned parameters do not denote a common point", tag(single)))),
+                                ("input", jstr(&format!("{} -> t1={} t2={} distance {} (allowed {})", label, t, u, dd, bound))),
+                            ]));
+                            break;
+                        }
+                    }
+                }
+            }
+        }
+    }
+}
+
+/// utils::cubic_polynomial_roots on polynomials with exactly known roots: scale * (x - r1)(x - r2)(x - r3) with integer
+/// roots (or eighths of integers) and a scale that keeps the coefficients exact (a few fixed ones, or a power of two placing the largest
+/// coefficient in a random binade) (distinct, double, triple roots, roots at 0, no x^2 term),
+/// scale * (x - r1)(x^2 + p x + q) without further real roots, and the degenerate a == 0 (quadratic: distinct, double,
+/// complex), a == b == 0 (linear) and a == b == c == 0 forms.  Soundness: every returned value is within 1e-6
+/// (relative to max(1, |root|)) of a true root - 1e-5 at a double root and 1e-3 at a triple root, where evaluating the
+/// expanded polynomial in floating point cannot locate the root any better (errors of eps^(1/2), eps^(1/3)).
+/// Completeness: every simple real root (all at least 1 apart, 1/8 for the eighths) is returned within 1e-6.  The f32
+/// pass uses 1e-3 / 3e-2 / 1e-1.  The roots are integers in -9..9 or eighths in -1.5..1.5: the solver decides that a
+/// leading coefficient is negligible by an absolute threshold chosen for roots of the order of 1 (the curve
+/// parameters), so polynomials whose roots are all far from [0, 1] AND whose cubic coefficient is 1e-4 of the others
+/// are outside what the intersection queries rely on.
+fn integer_root_checks(args: &Args, st: &mut Stats) {
+    use lyon_geom::utils::cubic_polynomial_roots;
+    let mut rng = Rng::new(args.seed ^ 0x12c6);
+    let n = if args.thorough() { 15000 } else { 2000 };
+    for it in 0..n {
+        let r = &mut rng;
+        let single = it % 4 == 3;
+        let k = *r.pick(&[1.0f64, -1.0, 2.0, -3.0, 0.5, 10.0, -0.25, 100.0, 1000.0, 0.015625, 7.0]);
+        // the roots are r / den: integers in -9..9, or eighths in -1.5..1.5 (the parameter range the intersection queries
+        // care about, and its neighbourhood)
+        let den: i64 = if r.chance(1, 3) { 8 } else { 1 };
+        let rmax = if den == 8 { 12 } else { 9 };
+        let root = |r: &mut Rng| r.range(-rmax, rmax);
+        // (coefficients of the monic-times-k polynomial as integers, true roots with multiplicity)
+        let (ci, roots, kind): ([i64; 4], Vec<(i64, u32)>, &str) = match r.below(12) {
+            0 | 1 | 2 => {
+                let mut rs = [root(r), root(r), root(r)];
+                rs.sort();
+                let c = [1, -(rs[0] + rs[1] + rs[2]), rs[0] * rs[1] + rs[0] * rs[2] + rs[1] * rs[2], -rs[0] * rs[1] * rs[2]];
+                let mut m: Vec<(i64, u32)> = vec![];
+                for x in rs {
+                    match m.last_mut() {
+                        Some(l) if l.0 == x => l.1 += 1,
+                        _ => m.push((x, 1)),
+                    }
+                }
+                (c, m, "three_real_roots")
+            }
+            3 => {
+                let (x, y) = (root(r), root(r));
+                let c = [1, -(2 * x + y), x * x + 2 * x * y, -x * x * y];
+                (c, if x == y { vec![(x, 3)] } else { vec![(x, 2), (y, 1)] }, "double_root")
+            }
+            4 => {
+                let x = root(r);
+                ([1, -3 * x, 3 * x * x, -x * x * x], vec![(x, 3)], "triple_root")
+            }
+            5 => {
+                // no x^2 term: roots x, y, -(x + y)
+                let (x, y) = (root(r).clamp(-9, 9), root(r).clamp(-9, 9));
+                let mut rs = [x, y, -(x + y)];
+                rs.sort();
+                let c = [1, 0, rs[0] * rs[1] + rs[0] * rs[2] + rs[1] * rs[2], -rs[0] * rs[1] * rs[2]];
+                let mut m: Vec<(i64, u32)> = vec![];
+                for x in rs {
+                    match m.last_mut() {
+                        Some(l) if l.0 == x => l.1 += 1,
+                        _ => m.push((x, 1)),
+                    }
+                }
+                (c, m, "no_square_term")
+            }
+            6 => {
+                // (x - x0)(x^2 + p x + q), p^2 < 4 q
+                let (x0, p) = (root(r), r.range(-6, 6));
+                let q = p * p / 4 + 1 + r.range(0, 8);
+                ([1, p - x0, q - p * x0, -q * x0], vec![(x0, 1)], "one_real_root")
+            }
+            7 | 8 => {
+                let (x, y) = (root(r), root(r));
+                ([0, 1, -(x + y), x * y], if x == y { vec![(x, 2)] } else { vec![(x.min(y), 1), (x.max(y), 1)] }, "quadratic")
+            }
+            9 => {
+                let p = r.range(-6, 6);
+                let q = p * p / 4 + 1 + r.range(0, 8);
+                ([0, 1, p, q], vec![], "quadratic_without_real_roots")
+            }
+            10 => ([0, 0, 1, -root(r)], vec![], "linear"),
+            _ => ([0, 0, 0, r.range(-3, 3)], vec![], "constant"),
+        };
+        let roots = if kind == "linear" { vec![(-ci[3], 1)] } else { roots };
+        let ci = [ci[0] * den * den * den, ci[1] * den * den, ci[2] * den, ci[3]];
+        let roots: Vec<(f64, u32)> = roots.iter().map(|(x, m)| (*x as f64 / den as f64, *m)).collect();
+        // half of the cases: instead of the listed scales, a power of two that puts the largest coefficient in a random
+        // binade [2^e, 2^(e+1)) (the solver's thresholds depend on the magnitude of the coefficients)
+        let cmax = ci.iter().map(|c| c.abs()).max().unwrap();
+        let k = if cmax > 0 && r.chance(1, 2) {
+            let e = r.range(0, if single { 20 } else { 36 }) as i32;
+            let l = 63 - (cmax as u64).leading_zeros() as i32; // floor(log2(cmax))
+            (2.0f64).powi(e - l) * if r.chance(1, 2) { 1.0 } else { -1.0 }
+        } else {
+            k
+        };
+        let coef = [k * ci[0] as f64, k * ci[1] as f64, k * ci[2] as f64, k * ci[3] as f64];
+        if single && coef.iter().any(|c| (*c as f32) as f64 != *c) {
+            continue; // not exact in f32
+        }
+        st.inc("evaluations");
+        st.inc(&format!("integer_root_cases_{}", tag(single)));
+        st.inc(&format!("integer_root_cases_{}", kind));
+        let label = format!("{} cubic_polynomial_roots({:?}, {:?}, {:?}, {:?}) (true roots with multiplicity {:?})", tag(single), coef[0], coef[1], coef[2], coef[3], roots);
+        st.note_case(&label, true);
+        let got: Option<Vec<f64>> = if single {
+            let c = [coef[0] as f32, coef[1] as f32, coef[2] as f32, coef[3] as f32];
+            catch(|| cubic_polynomial_roots(c[0], c[1], c[2], c[3]).iter().map(|x| *x as f64).collect())
+        } else {
+            catch(|| cubic_polynomial_roots(coef[0], coef[1], coef[2], coef[3]).to_vec())
+        };
+        let got = match got {
+            Some(g) => g,
+            None => {
+                st.fail(jobj(&[("what", jstr("cubic_polynomial_roots panicked")), ("input", jstr(&label))]));
+                continue;
+            }
+        };
+        let tol = |mult: u32| match (single, mult) {
+            (false, 1) => 1e-6,
+            (false, 2) => 1e-5,
+            (false, _) => 1e-3,
+            (true, 1) => 1e-3,
+            (true, 2) => 3e-2,
+            (true, _) => 1e-1,
+        };
+        for x in got.iter() {
+            let mut ok = false;
+            for (rt, mult) in roots.iter() {
+                let e = (x - *rt).abs() / rt.abs().max(1.0);
+                if e <= tol(*mult) {
+                    ok = true;
+                    counter_max(st, &format!("integer_root_{}_worst_error_e12_multiplicity_{}", tag(single), mult), (e * 1e12) as u64);
+                }
+            }
+            if !ok {
+                st.fail(jobj(&[("what", jstr(&format!("cubic_polynomial_roots ({}) reports a value that is not a root", tag(single)))), ("input", jstr(&format!("{} -> {:?}", label, got)))]));
+                break;
+            }
+        }
+        for (rt, mult) in roots.iter() {
+            if *mult == 1 && !got.iter().any(|x| (x - *rt).abs() / rt.abs().max(1.0) <= tol(1)) {
+                st.fail(jobj(&[("what", jstr(&format!("cubic_polynomial_roots ({}) misses a simple real root well separated from the others", tag(single)))), ("input", jstr(&format!("{} -> {:?}", label, got)))]));
+                break;
+            }
+        }
+    }
+}
+
+
 pub fn main(args: &Args) -> std::io::Result<()> {
     let mut st = Stats::default();
     let mut w = ShardWriter::new(&args.out, "c12_cases", args.shards, HEADER, "bad_cases");
@@ -943,6 +1657,11 @@ pub fn main(args: &Args) -> std::io::Result<()> {
     linear_projection_checks(args, &mut st);
     root_checks(args, &mut st);
     curve_checks_f32(args, &mut st);
+    straight_x_curve_checks(args, &mut st);
+    straight_x_straight_checks(args, &mut st);
+    special_pair_checks(args, &mut st);
+    point_at_extremum_checks(args, &mut st);
+    integer_root_checks(args, &mut st);
     quad_line_cases(args, &mut st)?;
     w.finish()?;
     st.write(&args.out.join("c12_stats.json"))
